@@ -59,8 +59,8 @@ type encCase struct {
 
 func run(c *vf.Ctx) {
 	g := gitx.New(c.Scratch)
-	nRepos := c.N(4, 16)
-	perRepo := c.N(16, 45)
+	nRepos := c.N(4, 12)
+	perRepo := c.N(16, 40)
 
 	repos := make([]*seedRepo, nRepos)
 	vf.Parallel(nRepos, 4, func(i int) {
@@ -232,16 +232,16 @@ func run(c *vf.Ctx) {
 
 	c.Extra("git_invocations", gitx.Calls.Load())
 	c.Extra("max_chain_depth_in_encoded_packs", maxDepth)
-	c.Floor("packs encoded and given to git", c.Counter("packs"), c.N(55, 600))
-	c.Floor("git index-pack confirmations", c.Counter("git_index_pack"), c.N(55, 600))
-	c.Floor("git index-pack --strict confirmations", c.Counter("git_index_pack_strict"), c.N(15, 200))
-	c.Floor("git verify-pack confirmations", c.Counter("git_verify_pack"), c.N(55, 600))
-	c.Floor("objects compared with git cat-file", c.Counter("objects_compared"), c.N(3000, 40000))
-	c.Floor("delta entries written", c.Counter("delta_entries"), c.N(250, 5000))
+	c.Floor("packs encoded and given to git", c.Counter("packs"), c.N(55, 400))
+	c.Floor("git index-pack confirmations", c.Counter("git_index_pack"), c.N(55, 400))
+	c.Floor("git index-pack --strict confirmations", c.Counter("git_index_pack_strict"), c.N(15, 130))
+	c.Floor("git verify-pack confirmations", c.Counter("git_verify_pack"), c.N(55, 380))
+	c.Floor("objects compared with git cat-file", c.Counter("objects_compared"), c.N(2000, 25000))
+	c.Floor("delta entries written", c.Counter("delta_entries"), c.N(250, 3500))
 	c.Floor("ref-delta packs with deltas", c.Counter("ref_delta_packs"), c.N(5, 60))
 	c.Floor("ofs-delta packs with deltas", c.Counter("ofs_delta_packs"), c.N(5, 60))
 	c.Floor("packs re-using stored deltas (filesystem storage, window>0)", c.Counter("reuse_packs"), c.N(8, 100))
-	c.Floor("sha256 packs", c.Counter("sha256_packs"), c.N(10, 150))
+	c.Floor("sha256 packs", c.Counter("sha256_packs"), c.N(10, 100))
 	c.Floor("packs with object > 1MiB", c.Counter("huge_packs"), c.N(2, 20))
 	c.Floor("max delta chain depth in encoded packs", maxDepth, 5)
 	c.Assume("git 2.39.5 index-pack --strict / verify-pack are the reference acceptors; --strict (fsck + connectivity) is applied only to requests closed under reachability, plain index-pack to the others")
